@@ -8,6 +8,7 @@
 //! Every library call runs under catch_unwind; the outcome class is ok / io / data / panic.
 use mp4::*;
 use mp4_verif_harness::*;
+use mp4_verif_harness::{G_BYTES, G_OPS};
 use serde_json::{json, Value};
 use std::alloc::{GlobalAlloc, Layout, System};
 use std::io::{BufRead, Cursor, Read, Seek, SeekFrom, Write};
@@ -56,6 +57,12 @@ fn note_alloc(n: u64) {
 }
 #[global_allocator]
 static A: Counting = Counting;
+static OPS_OPEN: AtomicU64 = AtomicU64::new(0);
+static MOVED_OPEN: AtomicU64 = AtomicU64::new(0);
+static CALL_MAX_OPS: AtomicU64 = AtomicU64::new(0);
+static CALL_MAX_MOVED: AtomicU64 = AtomicU64::new(0);
+static CALL_MAX_US: AtomicU64 = AtomicU64::new(0);
+static CALL_MAX_ALLOC: AtomicU64 = AtomicU64::new(0);
 
 struct AllocMark {
     live0: u64,
@@ -227,11 +234,20 @@ fn dump_reader<R: Read + Seek>(r: &mut Mp4Reader<R>, c: &Value, out: &mut Value)
     };
     let mut results = vec![];
     for (kind, tid, sid) in calls.iter() {
+        let o0 = G_OPS.load(Ordering::Relaxed);
+        let b0 = G_BYTES.load(Ordering::Relaxed);
+        let c0 = std::time::Instant::now();
+        let live0 = LIVE.load(Ordering::Relaxed);
+        PEAK.store(live0, Ordering::Relaxed);
         let v = match kind.as_str() {
             "cnt" => res_str(guard(|| r.sample_count(*tid))),
             "off" => res_str(guard(|| r.sample_offset(*tid, *sid))),
             _ => sample_json(&guard(|| r.read_sample(*tid, *sid)), want_bytes),
         };
+        CALL_MAX_OPS.fetch_max(G_OPS.load(Ordering::Relaxed).saturating_sub(o0), Ordering::Relaxed);
+        CALL_MAX_MOVED.fetch_max(G_BYTES.load(Ordering::Relaxed).saturating_sub(b0), Ordering::Relaxed);
+        CALL_MAX_US.fetch_max(c0.elapsed().as_micros() as u64, Ordering::Relaxed);
+        CALL_MAX_ALLOC.fetch_max(PEAK.load(Ordering::Relaxed).saturating_sub(live0), Ordering::Relaxed);
         results.push(json!([kind, tid, sid, v]));
     }
     out["tracks"] = json!(tracks);
@@ -326,9 +342,17 @@ fn cmd_read(c: &Value) -> Value {
         let _ = m.inner.seek(SeekFrom::Start(base));
     }
     meter_opts(&mut m, c);
+    let t0 = std::time::Instant::now();
     let opened = guard(|| Mp4Reader::read_header(&mut m, len));
     out["open"] = json!(cls(&opened));
     out["alloc_open"] = alloc_report(&mark);
+    out["us_open"] = json!(t0.elapsed().as_micros() as u64);
+    OPS_OPEN.store(G_OPS.load(Ordering::Relaxed), Ordering::Relaxed);
+    MOVED_OPEN.store(G_BYTES.load(Ordering::Relaxed), Ordering::Relaxed);
+    CALL_MAX_OPS.store(0, Ordering::Relaxed);
+    CALL_MAX_MOVED.store(0, Ordering::Relaxed);
+    CALL_MAX_US.store(0, Ordering::Relaxed);
+    CALL_MAX_ALLOC.store(0, Ordering::Relaxed);
     match opened {
         Ok(Ok(mut r)) => {
             if let Some(fh) = c.get("frag").and_then(|x| x.as_str()) {
@@ -353,6 +377,13 @@ fn cmd_read(c: &Value) -> Value {
     out["fired"] = json!(m.fired);
     out["alloc"] = alloc_report(&mark);
     out["n"] = json!(flen);
+    out["us_total"] = json!(t0.elapsed().as_micros() as u64);
+    out["ops_open"] = json!(OPS_OPEN.load(Ordering::Relaxed));
+    out["moved_open"] = json!(MOVED_OPEN.load(Ordering::Relaxed));
+    out["call_max_ops"] = json!(CALL_MAX_OPS.load(Ordering::Relaxed));
+    out["call_max_moved"] = json!(CALL_MAX_MOVED.load(Ordering::Relaxed));
+    out["call_max_us"] = json!(CALL_MAX_US.load(Ordering::Relaxed));
+    out["call_max_alloc"] = json!(CALL_MAX_ALLOC.load(Ordering::Relaxed));
     out
 }
 
